@@ -62,9 +62,10 @@ type AccountDump []string
 
 // DumpOptions selects what is rendered.
 type DumpOptions struct {
-	Versions bool // include version records (they differ between a provisional and a finalised state)
-	Raw      bool // include raw in-memory details from the verif hook (dirty maps, provisional counters, code-dirty flag)
-	Roots    bool // include the four trie roots (only meaningful on finalised states)
+	Versions  bool // include version records (they differ between a provisional and a finalised state)
+	Raw       bool // include raw in-memory details from the verif hook (dirty maps, provisional counters, code-dirty flag)
+	Roots     bool // include the four trie roots (only meaningful on finalised states)
+	NoSuicide bool // leave the self-destruct flag out (it lives in memory only, a state loaded from the store never has it)
 }
 
 func normCodeHash(h common.Hash) string {
@@ -82,7 +83,9 @@ func DumpAccount(acc types.AccountAccessor, keys *Keys, opt DumpOptions) Account
 	add("codehash=%s", normCodeHash(acc.GetCodeHash()))
 	code, err := acc.GetCode()
 	add("code=%x err=%v", []byte(code), err)
-	add("suicide=%v", acc.GetSuicide())
+	if !opt.NoSuicide {
+		add("suicide=%v", acc.GetSuicide())
+	}
 	add("votefor=%s", acc.GetVoteFor().Hex())
 	add("votes=%s", acc.GetVotes())
 	prof := acc.GetCandidate()
